@@ -147,6 +147,10 @@ def correspondence(ctx, model_ok):
         judge('trivial-branch validation', i, st, why, merges[i][0])
     # pattern operations, cone simulation, don't-care tables against the model
     patcorr.run_pattern_corr(ctx, ID, r, model_ok)
+    r.extra = {'programs': len(runs),
+               'disagreements_checked': sum(len(s) for _, s in runs) + sum(len(m) for _, m in merges),
+               'explanation': 'programs = end-to-end minimize_subcircuits runs; disagreements_checked = recorded '
+                              'replace_subcircuit calls + trivial-branch merges replayed through the model and the validator'}
     return r
 
 
